@@ -59,6 +59,11 @@ def generate(seed: int, tier: str) -> Dict[str, Any]:
     agents = sorted(world["agents"])
     ops: List[Dict[str, Any]] = []
     turn = 0
+    # a fifth of the histories run with a churn cap that actually trims (the meta-filter ranks by magnitude there) and
+    # generous other caps, over plans that touch most targets with distinct magnitudes
+    trimming = r.chance(0.2)
+    if trimming:
+        raw.setdefault("t4", {}).update({"churn_cap_edges": r.choice([2, 3, 4]), "delta_norm_cap_l2": 100.0, "novelty_cap_per_node": 1.0})
     for _ in range(r.randint(3, 12)):
         x = ro.random()
         if x < 0.12:
@@ -74,6 +79,10 @@ def generate(seed: int, tier: str) -> Dict[str, Any]:
             deltas = [{"kind": "edge" if t.startswith("e:") else "node", "id": t, "attr": "weight",
                        "delta": ro.choice([0.05, -0.1, 0.2, 0.31, 1.0, -2.0, 0.0]), "op_idx": ro.choice([None, 0, 1])}
                       for t in [ro.choice(TARGETS) for _ in range(nd)]]
+            if trimming and ro.chance(0.8):
+                mags = ro.sample([0.05, -0.1, 0.15, 0.2, -0.25, 0.3, 0.35], len(TARGETS))
+                deltas = [{"kind": "edge" if t.startswith("e:") else "node", "id": t, "attr": "weight", "delta": m, "op_idx": None}
+                          for t, m in zip(ro.sample(TARGETS, len(TARGETS)), mags)]
             fault = {"batch": ro.weighted([("ok", 5), ("raise", 3), ("odd:" + ro.choice(ODD_RESULTS), 2)]),
                      "singles": sorted(set(ro.randint(0, 5) for _ in range(ro.choice([0, 0, 1, 2])))),
                      "exc": ro.choice(["RuntimeError", "ValueError", "KeyError", "OSError"])}
@@ -256,9 +265,18 @@ def execute(program: Dict[str, Any]) -> Dict[str, Any]:
                         bad("handoff", "no-batch-call", ctxd)
                     else:
                         b = calls[0]
+                        ck = ["%s:%s:%s" % (k[0], k[1], k[2]) for k in b["keys"]]
+                        if ck != sorted(ck):
+                            bad("handoff", "batch-not-in-canonical-order", "batch got %s; %s" % (b["keys"], ctxd))
+                        n_prop = len({(d["kind"], d["id"], d["attr"]) for d in (op.get("deltas") or [])})
+                        if len(ck) >= 2 and n_prop > len(ck):
+                            stats["handoffs_of_a_trimmed_list"] = stats.get("handoffs_of_a_trimmed_list", 0) + 1
                         if b["keys"] != approved:
                             bad("handoff", "batch-args-differ", "batch got %s; %s" % (b["keys"], ctxd))
                         rest = calls[1:]
+                        rk = ["%s:%s:%s" % (k[0], k[1], k[2]) for cc in rest for k in cc["keys"]]
+                        if rk != sorted(rk):
+                            bad("handoff", "fallback-not-in-canonical-order", "one-by-one calls got %s; %s" % (rk, ctxd))
                         if not b["raised"]:
                             if rest:
                                 bad("handoff", "fallback-after-successful-batch:" + str(fault.get("batch")),
